@@ -2,6 +2,7 @@ package main
 
 import (
 	"fmt"
+	"go/types"
 	"strings"
 	"golang.org/x/tools/go/ssa"
 	"golang.org/x/tools/go/ssa/ssautil"
@@ -36,9 +37,59 @@ func ssautilAllFunctions(prog *ssa.Program) map[*ssa.Function]bool {
 }
 
 
+// appendSym: append where a length or a backing store is symbolic. The result
+// always lives in a fresh cell (functional array = old contents + writes).
+// Not modelled: in-place reuse of spare capacity (aliasing with the old slice).
 func (x *Exec) appendSym(st *State, fr *Frame, s, m *SliceV) Value {
-	fail("append with symbolic lengths not modelled")
-	return nil
+	x.note("append modelled as copy into a fresh backing array (no aliasing through spare capacity)")
+	et := s.elem
+	if et == nil {
+		et = m.elem
+	}
+	// source array as SymArr view
+	toSym := func(sl *SliceV) (*SymArr, *Term) {
+		if sl.cell == nil {
+			x.symArrCtr++
+			return &SymArr{elem: et, name: fmt.Sprintf("nil%d", x.symArrCtr)}, mkInt(0)
+		}
+		switch b := st.store[sl.cell].(type) {
+		case *SymArr:
+			return b, sl.off
+		case *Tuple:
+			x.symArrCtr++
+			sa := &SymArr{elem: et, name: fmt.Sprintf("lit%d", x.symArrCtr)}
+			for i, e := range b.el {
+				sa.writes = append(sa.writes, symWrite{idx: mkInt(int64(i)), val: e})
+			}
+			return sa, sl.off
+		}
+		fail("append: unsupported backing store")
+		return nil, nil
+	}
+	base, boff := toSym(s)
+	if off, ok := concreteInt(boff); !ok || off != 0 {
+		fail("append to a slice with non-zero offset into a symbolic array")
+	}
+	n := &SymArr{elem: et, name: base.name}
+	n.writes = append([]symWrite{}, base.writes...)
+	if ml, ok := concreteInt(m.len); ok && m.cell != nil {
+		if src, ok := st.store[m.cell].(*Tuple); ok {
+			mo, _ := concreteInt(m.off)
+			for i := 0; i < ml; i++ {
+				n.writes = append(n.writes, symWrite{idx: mkAdd(s.len, mkInt(int64(i))), val: src.el[mo+i]})
+			}
+			cell := newCell("append", types.NewArray(et, -1))
+			st.store[cell] = n
+			nl := mkAdd(s.len, mkInt(int64(ml)))
+			return &SliceV{cell: cell, off: mkInt(0), len: nl, cap: nl, elem: et, named: s.named}
+		}
+	}
+	src, soff := toSym(m)
+	n.writes = append(n.writes, symWrite{idx: s.len, src: src, srcOff: soff, n: m.len})
+	cell := newCell("append", types.NewArray(et, -1))
+	st.store[cell] = n
+	nl := mkAdd(s.len, m.len)
+	return &SliceV{cell: cell, off: mkInt(0), len: nl, cap: nl, elem: et, named: s.named}
 }
 
 // tablesImmutable: no instruction outside the package initialiser stores
